@@ -220,9 +220,9 @@ def check(run):
     except RuntimeError as e:
         run.tie_broken("evaluation of uncovered_ops", str(e))
     rng = run.rng
-    n = 10 if run.tier == "quick" else 120
+    n = 10 if run.tier == "quick" else 90
     hists = [list(h) for h in CORPUS] + [gen_history(rng, 6 + i % 9) for i in range(n)]
-    answers = run_parallel(binpath, [{"mode": "coord", "ops": [list(o) for o in h]} for h in hists], nproc=6)
+    answers = run_parallel(binpath, [{"mode": "coord", "ops": [list(o) for o in h]} for h in hists], nproc=6, chunk=4)
     exprs, where = [], []
     seen_fail = set()
     n_fail = 0
